@@ -133,8 +133,14 @@ class _Timeout(BaseException):   # BaseException: must pass through the package'
     pass
 
 
+_armed = [False]
+
+
 def _alarm(signum, frame):
-    raise _Timeout()
+    # the timer keeps firing (a time-out swallowed by the code under test is raised again); once the harness has the result - or the
+    # time-out - in hand the alarm is disarmed, so that a late tick cannot hit the harness's own clean-up code
+    if _armed[0]:
+        raise _Timeout()
 
 
 def safe_pformat(obj, st, limit=1.5):
@@ -159,17 +165,23 @@ _confirmed_hangs = [0]
 def _safe_pformat_once(obj, st, limit):
     import signal
     old = signal.signal(signal.SIGALRM, _alarm)
-    signal.setitimer(signal.ITIMER_REAL, limit, 0.25)      # keeps firing: a time-out raised at a moment where it is swallowed is raised again
     try:
         with warnings.catch_warnings():
             warnings.simplefilter('ignore')
+            signal.setitimer(signal.ITIMER_REAL, limit, 0.25)
+            _armed[0] = True
             try:
-                return pp.pformat(obj, width=st[1], ribbon_width=st[2], depth=st[3])
+                r = pp.pformat(obj, width=st[1], ribbon_width=st[2], depth=st[3])
+                _armed[0] = False
+                return r
             except _Timeout:
+                _armed[0] = False
                 return 'EXC:does-not-terminate-within-%gs' % limit
             except Exception as e:
+                _armed[0] = False
                 return 'EXC:' + type(e).__name__
     finally:
+        _armed[0] = False
         signal.setitimer(signal.ITIMER_REAL, 0)
         signal.signal(signal.SIGALRM, old)
 
@@ -415,6 +427,13 @@ class OddStr(Exception):
     """a user exception whose str() is odd: empty, with a newline and format characters"""
     def __str__(self):
         return ''
+
+
+def _safe_str(e):
+    try:
+        return str(e)
+    except Exception:
+        return '<str() of the exception failed>'
 
 
 class BadStr(Exception):
@@ -727,7 +746,7 @@ def fail_chunk(cases):
                 exc_msg = ''
             except Exception as e:
                 text, exc = None, type(e).__name__
-                exc_msg = str(e)
+                exc_msg = _safe_str(e)
         all_messages = exc_msg + ' '.join(str(x.message) for x in w)
         warned = []
         for x in w:
@@ -746,7 +765,7 @@ def fail_chunk(cases):
             try:
                 later = pp.pformat(clean_root, width=200)
             except Exception as e:
-                later = 'EXC:' + type(e).__name__ + ': ' + str(e)[:100]
+                later = 'EXC:' + type(e).__name__ + ': ' + _safe_str(e)[:100]
         if exc is not None:
             impl = '(escapes (warn%s))' % ''.join(' %d' % c for c in warned) if exc == 'ValueError' else '(raises %s)' % exc
         else:
